@@ -112,6 +112,17 @@ def _check_graph(n, edges, numbering=None):
         cp[0].bonds.add(n - 1); cp[0].name = 'ZZ'
         if [set(a.bonds) for a in top] != [adj[i] for i in range(n)] or top[0].name != 'AT0':
             problems.append('changing the copy changed the original')
+    # history variant: a topology that has been edited since it was loaded is copied - the copy equals what it is now
+    cp[-1].resname = 'EDT'; cp[-1].resid = 77
+    if n >= 3:
+        cp[1].connect(cp[n - 1])
+    cp2 = cp.copy()
+    state = lambda t: [(a.name, a.resname, a.resid, sorted(a.bonds)) for a in t]
+    if state(cp2) != state(cp) or cp2 != cp:
+        problems.append('copy of a topology edited after loading differs from it: %r vs %r' % (state(cp2)[:3], state(cp)[:3]))
+    cp2[0].name = 'YY'
+    if cp[0].name == 'YY':
+        problems.append('changing the copy of an edited topology changed it')
     return problems
 
 
